@@ -12,14 +12,15 @@ Definition zsnode := snode Z.
 (* the matrix of a <node> from its transform children (tag, floats), as Node.load builds it *)
 Definition nm (ts : list (nat * list Z)) : matZ := node_matrix zops (map (fun tf => TLoaded (fst tf) (snd tf)) ts).
 
-(* primitive: binding class (0 BoundTriangleSet, 1 BoundPolylist / BoundPolygons, 2 BoundLineSet), material
+(* primitive: library class (0 TriangleSet, 1 Polylist, 2 Polygons, 3 LineSet; the class that binds it is the
+   generated primitive_bind_class of it), material
    symbol (0 = no material attribute), the vertex source, the normal source *)
 Definition prim := (nat * N * list (vec3 Z) * option (list (vec3 Z)))%type.
 Record lib := Lib {
   geoms : list (N * list prim);
   ctrls : list (N * (nat * list Z * N));      (* 0 skin / 1 morph, bind_shape_matrix, source geometry *)
-  lights : list (N * nat);                    (* 0 point, 1 directional, 2 spot, 3 ambient *)
-  cams : list (N * nat) }.                    (* 0 perspective, 1 orthographic *)
+  lights : list (N * nat);                    (* library class: 0 PointLight, 1 DirectionalLight, 2 SpotLight, 3 AmbientLight *)
+  cams : list (N * nat) }.                    (* 0 PerspectiveCamera, 1 OrthographicCamera *)
 
 Fixpoint lookup {A} (d : A) (l : list (N * A)) (k : N) : A :=
   match l with [] => d | (k', v) :: r => if N.eqb k k' then v else lookup d r k end.
@@ -29,7 +30,8 @@ Definition flat3 (v : vec3 Z) : list Z := let '(a, b, c) := v in [a; b; c].
 Definition optvec (o : option (vec3 Z)) : list Z := match o with None => [0%Z] | Some v => 1%Z :: flat3 v end.
 
 Definition prim_flat (ctrl : bool) (M : matZ) (b : binds) (p : prim) : list Z :=
-  let '(pk, sym, verts, normals) := p in
+  let '(lc, sym, verts, normals) := p in
+  let pk := primitive_bind_class lc in
   [match material_of ctrl pk b sym with Some m => Z.of_N m | None => 0%Z end; zn (length verts)]
   ++ flat_map (fun v => flat3 (bound_vertex zops pk M v)) verts
   ++ match normals with
@@ -53,13 +55,13 @@ Definition ctrl_flat (L : lib) (o : bound Z) : list Z :=
   end.
 Definition cam_flat (L : lib) (o : bound Z) : list Z :=
   let '(_, target, M, _) := o in
-  let '(pos, dir, up) := bound_camera zops (lookup 0%nat (cams L) target) M in
+  let '(pos, dir, up) := bound_camera zops (camera_bind_class (lookup 0%nat (cams L) target)) M in
   Z.of_N target :: mat_to_list M ++ flat3 pos ++ flat3 dir ++ flat3 up.
 Definition light_flat (L : lib) (o : bound Z) : list Z :=
   let '(_, target, M, _) := o in
   let kind := lookup 3%nat (lights L) target in
-  let '(pos, dir, up) := bound_light zops kind (0, 0, 0)%Z (0, 0, -1)%Z M in
-  [Z.of_N target; zn kind] ++ optvec pos ++ optvec dir ++ optvec up.
+  let '(pos, dir, up) := bound_light zops (light_bind_class kind) (0, 0, 0)%Z (0, 0, -1)%Z M in
+  [Z.of_N target; zn (light_bind_class kind)] ++ optvec pos ++ optvec dir ++ optvec up.
 
 Definition case := (list zsnode * list (list Z) * list (list Z) * list (list Z) * list (list Z))%type.
 
